@@ -490,6 +490,95 @@ def check_formulas(ctx, rep):
     rep.check('C09.F', 'log_prob::direct-log-terms-agree', not missing, where(con.module, lp), {'skyline': sorted(st), 'constant': sorted(ct)},
               f"the skyline density has a direct log({missing[0] if missing else ''}) term (each tip sampled at a ρ-sampling time contributes log ρ) "
               f"but the constant model has none: with ρ>0 the single-epoch skyline and the constant model differ by n·log ρ")
+    # sibling rule: a mask on the psi (serial-sampling) term must depend on rho, as in the skyline (a tip at a sampling boundary is a rho-sample only if rho > 0 there)
+    from sa.util import backward_slice, local_assignments
+
+    def psi_masks(fn):
+        defs = local_assignments(fn)
+        out = []
+        for n in ast.walk(fn):
+            if isinstance(n, ast.BinOp) and isinstance(n.op, ast.Mult):
+                for a, b in ((n.left, n.right), (n.right, n.left)):
+                    has_log_psi = any(isinstance(c, ast.Call) and (dotted_name(c.func) or '').split('.')[-1] == 'log' and c.args and any(self_attr(x) == 'psi' or (isinstance(x, ast.Name) and x.id == 'psi') for x in ast.walk(c.args[0])) for c in ast.walk(a))
+                    is_mask = isinstance(b, (ast.UnaryOp, ast.Compare)) or (isinstance(b, ast.Name) and any(isinstance(d, (ast.Compare, ast.UnaryOp, ast.BinOp)) for d in defs.get(b.id, [])))
+                    if has_log_psi and is_mask:
+                        mentions_rho = any((self_attr(x) == 'rho') or (isinstance(x, ast.Name) and x.id == 'rho') for e in backward_slice(b, defs) for x in ast.walk(e))
+                        out.append((norm_text(b)[:50], mentions_rho))
+        return out
+    sm, cm = psi_masks(sky.methods['log_prob']), psi_masks(con.methods['log_prob'])
+    rep.check('C09.F', 'log_prob::psi-term-mask-depends-on-rho', all(r for _, r in cm) and all(r for _, r in sm), where(con.module, lp), {'skyline_masks': sm, 'constant_masks': cm},
+              f"the serial-sampling term log(psi) − log q is masked by {[t for t, r in cm + sm if not r]}, which does not depend on rho: a tip at the sampling boundary is a rho-sample "
+              f"only where rho > 0 (as the skyline decides it); with rho = 0 such tips lose their psi term and gain nothing")
+
+
+
+BD_MODULES = ('torchtree.evolution.bdsk', 'torchtree.evolution.birth_death')
+
+
+def check_purity(ctx, rep):
+    from sa.purity import check_alias_mutation
+    n = check_alias_mutation(ctx, rep, 'C09.P', lambda m, c, f: m.name in BD_MODULES and f.name not in ('__init__', 'from_json'))
+    if n < 10:
+        raise AnalysisError(f"only {n} in-place updates found in the birth-death modules")
+
+
+def check_snapshots(ctx, rep):
+    """C09.P — a model must read its parameters when it is evaluated: a value taken from `<parameter>.tensor` in the constructor and used by _call is frozen"""
+    n = 0
+    for mn in BD_MODULES:
+        m = ctx.prog.module(mn)
+        for cname, cnode in m.classes.items():
+            init = next((b for b in cnode.body if isinstance(b, ast.FunctionDef) and b.name == '__init__'), None)
+            if init is None:
+                continue
+            n += 1
+            others = [b for b in cnode.body if isinstance(b, ast.FunctionDef) and b.name != '__init__']
+            for st in ast.walk(init):
+                if not (isinstance(st, ast.Assign) and any(self_attr(t) for t in st.targets)):
+                    continue
+                reads_tensor = [x for x in ast.walk(st.value) if isinstance(x, ast.Attribute) and x.attr == 'tensor']
+                if not reads_tensor:
+                    continue
+                attr = next(self_attr(t) for t in st.targets if self_attr(t))
+                used = any(self_attr(x) == attr and isinstance(x.ctx, ast.Load) for f in others for x in ast.walk(f))
+                rep.check('C09.P', f"{cname}.__init__::self.{attr}-is-not-a-snapshot-of-a-parameter", not used, where(m, st), {'value': norm_text(st.value)[:80]},
+                          f"{cname}.__init__ stores `{norm_text(st.value)[:60]}` (the parameter's value at construction time) in self.{attr}, which the evaluation methods use: "
+                          f"after the parameter is updated the model keeps computing with the old value")
+    if n < 3:
+        raise AnalysisError('birth-death classes not found')
+    rep.ok('C09.P', 'constructors::no-parameter-snapshots', '', {'constructors': n})
+
+
+def check_rho_alignment(ctx, rep):
+    """C09.R — sampling at present is the *last* epoch: wherever rho is padded to one entry per epoch the zeros come first"""
+    n = 0
+    for mn in BD_MODULES:
+        m = ctx.prog.module(mn)
+        for c in ast.walk(m.tree):
+            if not isinstance(c, ast.Call):
+                continue
+            name = method_name(c) if 'method_name' in globals() else (c.func.attr if isinstance(c.func, ast.Attribute) else getattr(c.func, 'id', ''))
+            fn = c
+            while fn is not None and not isinstance(fn, ast.FunctionDef):
+                fn = getattr(fn, '_parent', None)
+            where_ = f"{mn.split('.')[-1]}.{fn.name if fn else '?'}"
+            if name == 'cat' and c.args and isinstance(c.args[0], (ast.Tuple, ast.List)):
+                parts = c.args[0].elts
+                kinds = ['zeros' if (isinstance(p_, ast.Call) and (p_.func.attr if isinstance(p_.func, ast.Attribute) else getattr(p_.func, 'id', '')) in ('zeros', 'zeros_like'))
+                         else ('rho' if 'rho' in ast.unparse(p_) else 'other') for p_ in parts]
+                if 'rho' in kinds and 'zeros' in kinds and len(parts) == 2:
+                    n += 1
+                    rep.check('C09.R', f"{where_}::rho-padded-with-leading-zeros", kinds == ['zeros', 'rho'], where(m, c), {'parts': kinds},
+                              f"{where_}: rho is padded as {kinds}: the single sampling probability must stay the last entry (sampling at present closes the youngest epoch), "
+                              f"the older epochs get rho = 0")
+            elif name == 'pad' and c.args and 'rho' in ast.unparse(c.args[0]):
+                n += 1
+                padv = c.args[1] if len(c.args) > 1 else None
+                lead = isinstance(padv, (ast.Tuple, ast.List)) and len(padv.elts) >= 2 and isinstance(padv.elts[1], ast.Constant) and padv.elts[1].value == 0
+                rep.check('C09.R', f"{where_}::rho-padded-with-leading-zeros", lead, where(m, c), {'pad': ast.unparse(padv) if padv is not None else None},
+                          f"{where_}: `{norm_text(c)[:70]}` appends zeros after rho: the sampling probability moves from the present to the oldest epoch boundary")
+    if n < 2:
+        raise AnalysisError(f"only {n} rho paddings found")
 
 
 def run(ctx, rep):
@@ -504,8 +593,11 @@ def run(ctx, rep):
     rep.rule('C09.K', "BDSKModel._call passes each keyword from the attribute of the same name; epidemiological conversion satisfies λ=Rδ, μ+ψ=δ, ψ=sδ (r: μ+rψ=δ)")
     rep.rule('C09.U', "every self.<member> read by the birth-death model classes resolves")
     rep.rule('C09.F', "constant and skyline models agree on log_q, A, last-epoch B and p, the first term, and on which parameters contribute direct log terms")
+    rep.rule('C09.P', "evaluation is pure: no in-place update of a name that may alias stored state or an argument; no constructor snapshot of a parameter value used at evaluation")
+    rep.rule('C09.R', "rho padded to one entry per epoch keeps the sampling probability last (zeros first)")
     rep.not_decided += ["epoch-refinement invariance", "boundary coincidences", "agreement with the master equations numerically"]
-    for f, rule in ((check_options, 'C09.O'), (check_plumbing, 'C09.K'), (check_members, 'C09.U'), (check_formulas, 'C09.F')):
+    for f, rule in ((check_options, 'C09.O'), (check_plumbing, 'C09.K'), (check_members, 'C09.U'), (check_formulas, 'C09.F'), (check_purity, 'C09.P'),
+                    (check_snapshots, 'C09.P'), (check_rho_alignment, 'C09.R')):
         try:
             f(ctx, rep)
         except Unsupported as u:
